@@ -36,6 +36,14 @@ def verdict(mut, opts, all_cols):
     if kind == 'copy':
         return 'pass', 'a copy always passes'
     col = mut.get('col')
+    if kind == 'object_lookalike':
+        # every non-null cell of the column is a different VALUE (a date object against its text), the dtype is the same:
+        # must fail wherever the column's values are checked at all
+        if cond or (sortby and col in (sortby or [])):
+            return 'unspecified', 'condition / sorting on the mutated column'
+        if selected(cd, all_cols, [col]) == 'none':
+            return 'pass', 'difference is in a column whose values are not checked'
+        return 'fail', 'checked values differ (same text, different values)'
     if kind in ('value', 'null_to_value', 'value_to_null', 'float_small', 'float_large'):
         if cond and mut.get('row_filtered_by_condition') is not False:
             return 'unspecified', 'mutated row may be filtered out by the condition'
